@@ -488,6 +488,11 @@ SCRIPTED = [
      [("open", "st_mod.f90"), ("open", "st_impl.f90"), ("query", "st_impl.f90"),
       ("full", "st_mod.f90", "module st_mod\n implicit none\n ! now a real\n real(8) :: counter\n interface\n  module subroutine bump()\n  end subroutine bump\n end interface\nend module st_mod\n"),
       ("save", "st_mod.f90")]),
+    ("the procedure a type-bound procedure is bound to is renamed in its own file and saved",
+     {"tb_impl.f90": "module tb_impl\ncontains\n subroutine doit()\n end subroutine doit\nend module tb_impl\n",
+      "tb_type.f90": "module tb_type\n use tb_impl\n type tt\n contains\n  procedure, nopass :: run => doit\n end type\ncontains\n subroutine u()\n  type(tt) :: x\n  call x%run()\n end subroutine\nend module tb_type\n"},
+     [("open", "tb_impl.f90"), ("open", "tb_type.f90"), ("query", "tb_type.f90"),
+      ("full", "tb_impl.f90", "module tb_impl\ncontains\n subroutine doit_renamed()\n end subroutine doit_renamed\nend module tb_impl\n"), ("save", "tb_impl.f90")]),
     ("the parent module of a submodule is deleted",
      {"sq_par.f90": "module sq_par\n implicit none\n integer :: pvar\n interface\n  module subroutine foo()\n  end subroutine foo\n end interface\nend module sq_par\n",
       "sq_sub.f90": "submodule (sq_par) sq_sub\ncontains\n module subroutine foo()\n  pvar = 1\n end subroutine foo\nend submodule sq_sub\n"},
